@@ -538,6 +538,9 @@ class AverageLearner1D(Learner1D):
                 "remove x or enlarge the bounds of the learner"
             )
 
+        # The samples are no longer pending
+        self.pending_points.difference_update((seed, x) for seed in seed_y_mapping)
+
         # If x is a new point:
         if x not in self.data:
             # we make a copy because we don't want to modify the original dict
